@@ -868,6 +868,14 @@ pub fn record_optslots(seed: u64, tier: &str, trace: &mut Vec<Value>, rep: &mut 
     let mut rng = Rng::new(seed ^ 0x0C03);
     let mut archs = architectures();
     archs.extend(thread_jobs());
+    // several filters inside a feedback block (the block owns its own optimizer state, one slot per filter)
+    archs.push(json!({"name": "fb-multifilter-adam", "ints": false, "input": [1, 4, 4], "out": 2,
+        "layers": [{"kind": "feedback", "loops": 2, "acc": "mean",
+                    "layers": [{"kind": "conv", "filters": 3, "kernel": [3, 3], "stride": [1, 1], "padding": [1, 1], "act": "tanh"},
+                               {"kind": "deconv", "filters": 2, "kernel": [3, 3], "stride": [1, 1], "padding": [1, 1], "act": "tanh"},
+                               {"kind": "conv", "filters": 1, "kernel": [3, 3], "stride": [1, 1], "padding": [1, 1], "act": "tanh"}]},
+                   {"kind": "dense", "out": 2, "act": "linear", "bias": true}],
+        "objective": {"kind": "mse"}, "optimizer": {"kind": "adam", "lr": 0.01}}));
     let kinds_menu = ["dense", "conv", "deconv", "pool", "fb"];
     for _ in 0..(if tier == "thorough" { 30 } else { 6 }) {
         let k = rng.range(1, 4) as usize;
